@@ -37,7 +37,7 @@ LANGS = ["py", "ts", "rs", "jl"]
 SLOTS_THOROUGH = {
     "nvars": [1, 2, 3],
     "untouched": ["no", "first", "last"],
-    "coef": ["one", "two", "half", "pname", "pcomp", "neg"],
+    "coef": ["one", "two", "half", "pname", "pcomp", "neg", "irr", "tiny", "third"],
     "derived": ["none", "one", "chain", "chain-ooo", "ratedep"],
     "ptype": ["float", "int"],
     "ia": [0, 1],
@@ -78,6 +78,8 @@ def build_model(c):
     # influx with the coefficient under test
     coef = {
         "one": 1, "two": 2, "half": 0.5, "neg": -3, "pname": "kc",
+        # measured coefficients: not a ratio of small integers, very small, a non-terminating binary fraction
+        "irr": 0.4321, "tiny": 0.0004, "third": 1 / 3,
         "pcomp": Derived(fn=F.half_plus, args=["kc"]),
     }[c["coef"]]
     m.add_reaction("r_in", F.const_in, args=["kin"], stoichiometry={xs[0]: coef})
@@ -122,6 +124,11 @@ def generate(tier):
     base = {"untouched": "no", "coef": "one", "ptype": "float", "ia": 0, "ct": "none", "untr": 1}
     for nvars, derived, free in it.product(slots["nvars"], slots["derived"], slots["free"]):
         shapes.append({**base, "nvars": nvars, "derived": derived, "free": free})
+    # numeric coefficients of every kind (the quick product above carries only 1, 2 and 0.5)
+    for coef, nvars, untouched, derived, free in it.product(("neg", "irr", "tiny", "third"), (1, 2), ("no", "first"), ("none", "chain"), slots["free"]):
+        sh = {**base, "untr": 0, "coef": coef, "nvars": nvars, "untouched": untouched, "derived": derived, "free": free}
+        if sh not in shapes:
+            shapes.append(sh)
     return [{k: sh[k] for k in keys} for sh in shapes]
 
 
